@@ -46,6 +46,12 @@ def peel_ref(ty):
     return ty
 
 
+# method spellings of std functions that the rules know under their free-function name
+KEY_ALIAS = {
+    "std::ptr::mut_ptr::drop_in_place": "std::ptr::drop_in_place",
+}
+
+
 class Callee:
     """Normalised description of the function operand of a call terminator."""
 
@@ -84,6 +90,7 @@ class Callee:
             self.key = "%s::%s" % (self.trait, self.name)
         else:
             self.key = strip_generics(self.path)
+        self.key = KEY_ALIAS.get(self.key, self.key)
 
     def self_key(self):
         """binding key of the Self type of a trait call: type parameter name, or `P::Assoc` for `<P as Tr>::Assoc`"""
@@ -346,6 +353,21 @@ class Body:
                     d.setdefault(p["l"], []).append((bi, "term", "call", t))
                 elif p["p"][0]["k"] != "deref":
                     d.setdefault(p["l"], []).append((bi, "term", "partial", t))
+        # `v.push(x)` on a local vector: a further definition of the vector ("mutcall"), so that what a fill loop stores
+        # is part of the vector's value
+        for bi, bb in enumerate(self.blocks):
+            t = bb["term"]
+            if t["k"] != "call" or bb["cleanup"] or len(t["args"]) != 2:
+                continue
+            c = self.callee(bi)
+            if c is None or c.indirect or c.key != "std::vec::Vec::push":
+                continue
+            a0 = t["args"][0]
+            if a0["k"] not in ("move", "copy") or a0["place"]["p"]:
+                continue
+            rdefs = d.get(a0["place"]["l"], [])
+            if len(rdefs) == 1 and rdefs[0][2] == "assign" and rdefs[0][3]["k"] == "ref" and not rdefs[0][3]["place"]["p"]:
+                d.setdefault(rdefs[0][3]["place"]["l"], []).append((bi, "term", "mutcall", t))
         self._defs = d
         return d
 
